@@ -38,7 +38,7 @@ NAMES = ['a', 'a_b', 'A', 'b10', 'b9', 'B', 'Da', 'D', 'Derivativf', 'E', 'C', '
 FREE = ['time', 't', 'T', 'tau', 'environment$time', 'Time']
 VANISH = ['zero', 'diff', 'cancel', 'pow0', 'zero2', 'zerodiv', 'pw', 'exp0', 'zeroexp', 'paren', 'qdiff2', 'qdiff3']
 XCANCEL = ['q3', 'q3', 'q4', 'abc', 'abcq', 'reord', 'powf', 'expf', 'sharedq']
-LIVE = ['lin', 'sq', 'exp', 'prod', 'div', 'pw', 'sub', 'near6']
+LIVE = ['lin', 'sq', 'exp', 'prod', 'div', 'pw', 'sub', 'near6', 'bare', 'bare2']
 SHAPES = ['chain', 'diamond', 'layered', 'wide', 'star', 'dag', 'dag', 'dense']
 
 
@@ -77,6 +77,10 @@ def live_term(rng, n, d, others):
         return ['div', D, ['add', ['q', 2.0], ['pow', o, 2]]]
     if form == 'pw':
         return ['pw', D, ['q', 1.25], o, ['mul', ['q', c], D]]
+    if form == 'bare':        # the right-hand side collapses to the bare reference once the number is substituted
+        return rng.choice([['add', D, ['q', 0.0]], ['powq', D, 1.0]])
+    if form == 'bare2':       # one path to another quantity vanishes, the bare reference stays
+        return ['add', ['mul', ['q', 0.0], o], D]
     if form == 'near6':       # two different numbers that agree in their first six significant digits: the dependency
         a, b = rng.choice([(96485.3415, 96485.3365), (8314.4724, 8314.472), (1.0000001, 1.0), (0.30000004, 0.3)])
         return ['mul', ['sub', ['q', a], ['q', b]], D]                      # on D is small but real
@@ -196,6 +200,16 @@ def gen_system(rng):
             [x for x in avail + sorted(states) + ([n] if states else []) if x not in protected]
         if not factors:
             protected = set()
+        if deps and rng.random() < 0.1:
+            # an ALIAS once the numbers are substituted: the right-hand side collapses to one bare reference
+            # (x = y + 0,  x = 0*z + y); the dependency on y is real, the one on z vanishes
+            d0 = rng.choice(deps)
+            rest = [x for x in deps if x != d0]
+            alias = ['add', ref_spec(n, d0), ['q', 0.0]] if not rest or rng.random() < 0.5 else \
+                ['add', ['mul', ['q', 0.0], ref_spec(n, rng.choice(rest))], ref_spec(n, d0)]
+            eqs.append({'lhs': ['d', v] if v in states else ['v', v], 'rhs': alias})
+            avail.append(n + 1 + v if v in states else v)
+            continue
         terms = [['q', float(rng.randint(1, 9))]]
         for d in deps:
             others = [x for x in deps if x != d and x not in protected]
@@ -260,6 +274,8 @@ def gen_queries(rng, case, extra_nodes=()):
         for recurse in (True, False):
             for strip in (True, False):
                 qs.append({'req': s, 'recurse': recurse, 'strip': strip})
+    if rng.random() < 0.5:
+        rng.shuffle(qs)     # the queries run one after the other on ONE model: other histories of the cached graphs
     return qs
 
 
